@@ -29,6 +29,9 @@ pub fn check(tier: Tier) -> Check {
     parts.push(Part::new("C05/wide", json!({"n": 600}), 0, 120));
     // the same exploration over a connection whose CONNECT / CONNACK carry everything else
     parts.push(Part::new("C05/ops", json!({"depth": tier.pick(5, 7), "flavour": 1}), 0, tier.pick(40, 600)));
+    // identifier flavour: the counters start next to a boundary of their encodings (DESIGN 4)
+    parts.push(Part::new("C05/ops", json!({"depth": tier.pick(5, 6), "ids": [32766, 126]}), 0, tier.pick(40, 600)));
+    parts.push(Part::new("C05/ops", json!({"depth": tier.pick(4, 5), "ids": [254, 16382]}), 1, tier.pick(40, 600)));
     Check {
         also_rel: false,
         property: "C05",
